@@ -31,10 +31,35 @@ Bins(X, Y) == {Bin(op, x, y) : op \in Ops, x \in X, y \in Y}
 
 NoStyle == [restrict |-> FALSE, rt |-> FALSE, maxin |-> FALSE, simd |-> FALSE, dim |-> FALSE,
             tile |-> FALSE, xbar |-> FALSE]
+\* ---- loop headers ---------------------------------------------------------------------------
+TH(n) == [init |-> 0, bound |-> n, cmp |-> "lt", left |-> TRUE, upd |-> "preinc", step |-> 1]
+THs(ext) == [j \in 1..Len(ext) |-> TH(ext[j])]
+\* comparison (as written), iterator on the left?, update -- the combinations whose direction agrees
+UpUpds == {"preinc", "postinc", "addeq"}
+DownUpds == {"predec", "postdec", "subeq"}
+HShapes == {<<c[1], c[2], u>> : c \in {<<"lt", TRUE>>, <<"le", TRUE>>, <<"gt", FALSE>>, <<"ge", FALSE>>}, u \in UpUpds}
+           \cup {<<c[1], c[2], u>> : c \in {<<"gt", TRUE>>, <<"ge", TRUE>>, <<"lt", FALSE>>, <<"le", FALSE>>}, u \in DownUpds}
+\* the header of shape sh with the given step and initial value that runs n times; `slack` in 0..step-1
+\* moves the bound inside the last stride (slack # 0: the range is not a multiple of the stride)
+MkHdr(sh, step, init, slack, n) ==
+  LET up   == sh[3] \in UpUpds
+      incl == sh[1] \in {"le", "ge"}
+      last == IF up THEN init + (n - 1) * step ELSE init - (n - 1) * step
+      b    == IF up THEN (IF incl THEN last + slack ELSE last + step - slack)
+              ELSE (IF incl THEN last - slack ELSE last - step + slack)
+  IN [init |-> init, bound |-> b, cmp |-> sh[1], left |-> sh[2], upd |-> sh[3], step |-> step]
+StepsOf(sh) == IF sh[3] \in {"addeq", "subeq"} THEN {1, 2, 3} ELSE {1}
+AnyHdr(n) == LET sh == RandomElement(HShapes) st == RandomElement(StepsOf(sh)) IN
+             MkHdr(sh, st, RandomElement({0, 0, 1, -2, 3}), RandomElement(0..(st - 1)), n)
+\* half of the loops of a sampled head keep the plain header
+SomeHdr(n) == IF RandomElement({TRUE, FALSE}) THEN TH(n) ELSE AnyHdr(n)
+
 NHead(O, I, hasSh, hasEx, base, omap, style) ==
-  [O |-> O, I |-> I, limit |-> Prod(O) * Prod(I), hasSh |-> hasSh, hasEx |-> hasEx, base |-> base,
-   omap |-> omap, style |-> style, phases |-> <<>>]
-St(op, e, cond, cell, n) == [op |-> op, e |-> e, cond |-> cond, cell |-> cell, n |-> n]
+  [O |-> O, I |-> I, OH |-> THs(O), IH |-> THs(I), limit |-> Prod(O) * Prod(I), hasSh |-> hasSh, hasEx |-> hasEx, base |-> base,
+   omap |-> omap, style |-> style, hasRow |-> FALSE, phases |-> <<>>]
+WithRow(h) == [h EXCEPT !.hasRow = TRUE]
+StV(op, e, cond, cell, n, via) == [op |-> op, e |-> e, cond |-> cond, cell |-> cell, n |-> n, via |-> via]
+St(op, e, cond, cell, n) == StV(op, e, cond, cell, n, "direct")
 Plain(ops, E) == {St(op, e, "none", "c0", 1) : op \in ops, e \in E}
 
 \* plans: 1..nn nests, each 1..np phases of 1..ns statements
@@ -51,7 +76,7 @@ DHeads(c) ==
                         NHead(<<1>>, <<3>>, FALSE, FALSE, NoE, "rev", NoStyle)}
     [] c = "excl"   -> {NHead(<<2>>, <<2>>, FALSE, TRUE, NoE, "row", NoStyle), NHead(<<1>>, <<3>>, FALSE, TRUE, DBase, "rev", NoStyle)}
     [] c = "shared" -> {NHead(<<2>>, <<2>>, TRUE, FALSE, NoE, "row", NoStyle), NHead(<<1>>, <<3>>, TRUE, FALSE, NoE, "row", NoStyle)}
-    [] c = "atomic" -> {NHead(<<2>>, <<2>>, FALSE, FALSE, NoE, "row", NoStyle), NHead(<<1>>, <<3>>, FALSE, FALSE, NoE, "row", NoStyle)}
+    [] c = "atomic" -> {WithRow(NHead(<<2>>, <<2>>, FALSE, FALSE, NoE, "row", NoStyle)), NHead(<<1>>, <<3>>, FALSE, FALSE, NoE, "row", NoStyle)}
     [] c = "mixed"  -> {NHead(<<1>>, <<3>>, TRUE, TRUE, DBase, "row", NoStyle), NHead(<<2>>, <<2>>, TRUE, TRUE, NoE, "col", NoStyle)}
     [] c = "tile"   -> {[NHead(<<2>>, <<2>>, FALSE, FALSE, NoE, "row", [NoStyle EXCEPT !.tile = TRUE]) EXCEPT !.limit = 3]}
 DMenu(c) ==
@@ -63,7 +88,9 @@ DMenu(c) ==
                         St("out", Sh("rot"), "none", "c0", 1), St("out", Bin("-", Sh("rev"), Sh("own")), "none", "c0", 1),
                         St("out", In("i"), "none", "c0", 1)}
     [] c = "atomic" -> {St("atomic", In("lin"), "none", cell, 1) : cell \in {"c0", "o", "i"}}
-                       \cup {St("atomsub", IV, "ieven", "c0", 2), St("atominc", C(1), "none", "i", 1), St("out", In("lin"), "none", "c0", 1)}
+                       \cup {St("atomsub", IV, "ieven", "c0", 2), St("atominc", C(1), "none", "i", 1), St("out", In("lin"), "none", "c0", 1),
+                             StV("atomic", In("i"), "none", "c0", 1, "ptr"), StV("atomdec", C(1), "none", "i", 1, "row"),
+                             StV("atomsub", IV, "none", "o", 1, "ref")}
     [] c = "mixed"  -> {St("sh", In("lin"), "none", "c0", 1), St("exset", Sh("own"), "none", "c0", 1),
                         St("atomic", Bin("+", Sh("rev"), EX), "none", "o", 1), St("let", Sh("zero"), "none", "c0", 1),
                         St("outadd", Call(TMP, EX), "sum", "c0", 1)}
@@ -102,32 +129,38 @@ Cells   == {"c0", "o", "i"}
 
 Cnd(ops, E)  == {St(op, e, c, "c0", 1) : op \in ops, e \in E, c \in Conds}
 Rep(ops, E)  == {St(op, e, "none", "c0", n) : op \in ops, e \in E, n \in {2, 3}}
-Atom(E)      == {St(op, e, c, cell, n) : op \in {"atomic", "atomsub"}, e \in E, c \in {"none", "ieven", "sum"}, cell \in Cells, n \in {1, 2}}
-                \cup {St(op, C(1), c, cell, 1) : op \in {"atominc", "atomdec"}, c \in {"none", "sum"}, cell \in Cells}
+Vias == {"direct", "ptr", "ref", "row"}
+AtomV(E, V)  == {StV(op, e, c, cell, n, v) : op \in {"atomic", "atomsub"}, e \in E, c \in {"none", "ieven", "sum"}, cell \in Cells, n \in {1, 2}, v \in V}
+                \cup {StV(op, C(1), c, cell, 1, v) : op \in {"atominc", "atomdec"}, c \in {"none", "sum"}, cell \in Cells, v \in V}
+Atom(E)      == AtomV(E, Vias)
 
 StyleSet(fs) == {[f \in DOMAIN NoStyle |-> IF f = "tile" THEN FALSE ELSE (f \in on)] : on \in SUBSET fs}
 \* the heads of a class are a product of component sets (kept as a record so that a simulation can
 \* sample component-wise instead of building the product)
-HP(Os, Is, shs, exs, bases, maps, styles, limits) ==
-  [Os |-> Os, Is |-> Is, shs |-> shs, exs |-> exs, bases |-> bases, maps |-> maps, styles |-> styles, limits |-> limits]
+HP(Os, Is, shs, exs, bases, maps, styles, limits, rows) ==
+  [Os |-> Os, Is |-> Is, shs |-> shs, exs |-> exs, bases |-> bases, maps |-> maps, styles |-> styles, limits |-> limits, rows |-> rows]
 HeadParams(c) ==
-  CASE c = "basic"  -> HP(ShapesO, ShapesI, {FALSE}, {FALSE}, {NoE}, Maps, {NoStyle}, {0})
-    [] c = "control"-> HP(ShapesO, ShapesI, {FALSE}, {FALSE}, GBases, Maps, {NoStyle}, {0})
-    [] c = "excl"   -> HP(ShapesO, ShapesI, {FALSE}, {TRUE}, GBases, Maps, {NoStyle}, {0})
-    [] c = "shared" -> HP(ShapesO, ShapesI, {TRUE}, {FALSE}, {NoE}, Maps, {NoStyle}, {0})
-    [] c = "atomic" -> HP(ShapesO, ShapesI, {FALSE}, {FALSE}, {NoE}, Maps, {NoStyle}, {0})
-    [] c = "mixed"  -> HP(ShapesO, ShapesI, {TRUE}, {TRUE}, GBases, Maps, {NoStyle}, {0})
+  CASE c = "basic"  -> HP(ShapesO, ShapesI, {FALSE}, {FALSE}, {NoE}, Maps, {NoStyle}, {0}, {FALSE})
+    [] c = "control"-> HP(ShapesO, ShapesI, {FALSE}, {FALSE}, GBases, Maps, {NoStyle}, {0}, {FALSE})
+    [] c = "excl"   -> HP(ShapesO, ShapesI, {FALSE}, {TRUE}, GBases, Maps, {NoStyle}, {0}, {FALSE})
+    [] c = "shared" -> HP(ShapesO, ShapesI, {TRUE}, {FALSE}, {NoE}, Maps, {NoStyle}, {0}, {FALSE})
+    [] c = "atomic" -> HP(ShapesO, ShapesI, {FALSE}, {FALSE}, {NoE}, Maps, {NoStyle}, {0}, BOOLEAN)
+    [] c = "mixed"  -> HP(ShapesO, ShapesI, {TRUE}, {TRUE}, GBases, Maps, {NoStyle}, {0}, BOOLEAN)
     [] c = "annot"  -> HP(ShapesO, ShapesI, BOOLEAN, BOOLEAN, {NoE, Bin("+", In("o"), A)}, {"row", "col"},
-                          StyleSet({"restrict", "rt", "maxin", "simd", "xbar", "dim"}), {0})
-    [] c = "shflow" -> HP(ShapesO, ShapesI \ {<<1>>}, {TRUE}, {FALSE}, {NoE}, Maps, {NoStyle}, {0})
+                          StyleSet({"restrict", "rt", "maxin", "simd", "xbar", "dim"}), {0}, BOOLEAN)
+    [] c = "atomalias" -> HP({<<2>>, <<3>>, <<2, 2>>, <<3, 1>>}, ShapesI, {FALSE}, {FALSE}, {NoE}, Maps, {NoStyle}, {0}, {TRUE})
+    [] c = "shflow" -> HP(ShapesO, ShapesI \ {<<1>>}, {TRUE}, {FALSE}, {NoE}, Maps, {NoStyle}, {0}, {FALSE})
     [] c = "tile"   -> HP(Shapes1, Shapes1 \cup {<<4>>}, {FALSE}, {FALSE}, {NoE}, Maps,
-                          {[st EXCEPT !.tile = TRUE] : st \in StyleSet({"restrict", "rt"})}, 0..3)
+                          {[st EXCEPT !.tile = TRUE] : st \in StyleSet({"restrict", "rt"})}, 0..3, {FALSE})
 \* limit = all iterations minus `less` (only @tile nests may leave iterations out)
-MkHead(O, I, hs, he, bs, m, st, less) ==
-  [NHead(O, I, hs, he, bs, IF st.dim THEN "row" ELSE m, st) EXCEPT !.limit = IF @ - less >= 1 THEN @ - less ELSE @]
+MkHead(O, I, hs, he, bs, m, st, less, row) ==
+  [NHead(O, I, hs, he, bs, IF st.dim THEN "row" ELSE m, st) EXCEPT !.limit = IF @ - less >= 1 THEN @ - less ELSE @, !.hasRow = row]
+\* (GHeads: plain headers; the sampled heads of a simulation get headers from HShapes)
+WithHdrs(h) == IF h.style.tile THEN h
+               ELSE [h EXCEPT !.OH = [j \in 1..Len(h.O) |-> SomeHdr(h.O[j])], !.IH = [j \in 1..Len(h.I) |-> SomeHdr(h.I[j])]]
 GHeads(c) == LET p == HeadParams(c) IN
-  {MkHead(O, I, hs, he, bs, m, st, l) : O \in p.Os, I \in p.Is, hs \in p.shs, he \in p.exs, bs \in p.bases,
-                                        m \in p.maps, st \in p.styles, l \in p.limits}
+  {MkHead(O, I, hs, he, bs, m, st, l, rw) : O \in p.Os, I \in p.Is, hs \in p.shs, he \in p.exs, bs \in p.bases,
+                                            m \in p.maps, st \in p.styles, l \in p.limits, rw \in p.rows}
 
 GMenu(c) ==
   CASE c = "basic"  -> Plain({"out", "outadd"}, EBasic)
@@ -143,6 +176,7 @@ GMenu(c) ==
                        \cup Plain({"out", "outadd", "let"}, ESmall \cup EShOwn \cup EShOth \cup EEx \cup ECtl \cup EBaseU)
                        \cup Cnd({"out", "exadd"}, EShOth \cup EEx \cup ECtl) \cup Rep({"exadd", "outadd"}, EShOth \cup EEx)
                        \cup Atom({IV, In("lin"), EX, Sh("rot"), Sh("own"), TMP, BASE})
+    [] c = "atomalias" -> AtomV({IV, In("lin"), A, C(2)}, {"ptr", "ref", "row"}) \cup Plain({"out"}, {In("lin"), IV})
     [] c = "shflow" -> Plain({"sh"}, {In("lin"), Bin("+", In("rot"), IV), Bin("*", Sh("own"), C(2))})
                        \cup Plain({"out", "outadd"}, EShOth) \cup {St("atomic", Sh("rot"), "none", "o", 1)}
     [] c = "tile"   -> Plain({"out", "outadd", "let"}, ESmall \cup ECtl) \cup Cnd({"out"}, ESmall) \cup Atom({IV, In("lin")})
@@ -152,22 +186,23 @@ GPlans(c) ==
     [] c \in {"excl", "shared"}   -> {p \in PlanSet(1, 3, 2) \cup PlanSet(1, 2, 3) \cup PlanSet(2, 3, 2) : \E j \in 1..Len(p) : Len(p[j]) >= 2}
                                      \cup {<< <<1, 1, 1, 1>> >>}
     [] c \in {"mixed", "annot"}   -> {p \in PlanSet(1, 3, 3) \cup PlanSet(2, 2, 3) : \E j \in 1..Len(p) : Len(p[j]) >= 2}
+    [] c = "atomalias"            -> PlanSet(2, 2, 2)
     [] c = "shflow"               -> {p \in PlanSet(2, 3, 2) : \A j \in 1..Len(p) : Len(p[j]) >= 2}
     [] c = "tile"                 -> PlanSet(2, 1, 3)
 GNoBar(c) == IF c \in {"shared", "mixed", "annot", "shflow"} THEN BOOLEAN ELSE {FALSE}
-GWraps(c) == IF c \in {"shared", "mixed", "control", "atomic", "excl", "shflow"} THEN {"none", "block", "ifo", "ifa"} ELSE {"none"}
+GWraps(c) == IF c \in {"shared", "mixed", "control", "atomic", "excl", "shflow", "atomalias"} THEN {"none", "block", "ifo", "ifa"} ELSE {"none"}
 
 \* simulation: every evaluation of the generator's choice sets sees a fresh random sample of the menus
 \* (TLC's simulator enumerates all successors of a state before it picks one)
 Sample(n, S) == IF Cardinality(S) <= n THEN S ELSE RandomSubset(n, S)
 SHeads(c) == LET p == HeadParams(c) IN
-  {h \in {MkHead(RandomElement(p.Os), RandomElement(p.Is), RandomElement(p.shs), RandomElement(p.exs), RandomElement(p.bases),
-                 RandomElement(p.maps), RandomElement(p.styles), RandomElement(p.limits)) : j \in 1..8} : HeadOK(h)}
+  {h \in {WithHdrs(MkHead(RandomElement(p.Os), RandomElement(p.Is), RandomElement(p.shs), RandomElement(p.exs), RandomElement(p.bases),
+                 RandomElement(p.maps), RandomElement(p.styles), RandomElement(p.limits), RandomElement(p.rows))) : j \in 1..8} : HeadOK(h)}
 StmtOps == {"out", "outadd", "sh", "exset", "exadd", "atomic", "atomsub", "atominc", "atomdec", "let"}
 \* (sampled per kind of statement and per kind of storage read, so that the rarer combinations --
 \*  a read of sh or ex needs an earlier write -- are offered at every step; the partition of the
 \*  menus is a constant, evaluated once)
-GenClasses == {"basic", "control", "excl", "shared", "atomic", "mixed", "annot", "tile", "shflow"}
+GenClasses == {"basic", "control", "excl", "shared", "atomic", "mixed", "annot", "tile", "shflow", "atomalias"}
 MenuParts == [c \in GenClasses |-> LET M == GMenu(c) IN
                [op \in StmtOps |-> << {s \in M : s.op = op /\ "sh" \in Kinds(s.e)},
                                       {s \in M : s.op = op /\ "ex" \in Kinds(s.e) /\ "sh" \notin Kinds(s.e)},
@@ -177,6 +212,36 @@ SMenu(c)  == UNION {Sample(4, MenuParts[c][op][1]) \cup Sample(3, MenuParts[c][o
 SPlans(c) == Sample(24, GPlans(c))
 
 AllClasses == GenClasses
+
+\* =========================================================================================
+\* H: the header class, enumerated completely (breadth-first, no sampling): one tiny kernel per
+\* header shape x loop position x variant; the loop under test has n iterations, the other loops are plain
+HVar(sh, v) ==   \* variant v of shape sh: <<step, init, slack, n, run-time bound?>>
+  IF sh[3] \in {"addeq", "subeq"}
+    THEN CASE v = 1 -> <<2, 1, 1, 3, FALSE>> [] v = 2 -> <<3, -2, 2, 2, TRUE>> [] v = 3 -> <<2, 0, 0, 3, TRUE>> [] v = 4 -> <<3, 3, 1, 3, FALSE>>
+    ELSE CASE v = 1 -> <<1, 1, 0, 3, FALSE>> [] v = 2 -> <<1, -2, 0, 2, TRUE>> [] v = 3 -> <<1, 0, 0, 3, TRUE>> [] v = 4 -> <<1, 3, 0, 2, FALSE>>
+HHead(sh, pos, v) ==
+  LET q == HVar(sh, v)
+      h == MkHdr(sh, q[1], q[2], q[3], q[4])
+      st == [NoStyle EXCEPT !.rt = q[5]]
+  IN IF pos = "outer"
+       THEN [NHead(<<q[4]>>, <<2>>, FALSE, FALSE, NoE, "row", st) EXCEPT !.OH = <<h>>]
+     ELSE IF pos = "inner"
+       THEN [NHead(<<2>>, <<q[4]>>, FALSE, FALSE, NoE, "row", st) EXCEPT !.IH = <<h>>]
+     ELSE IF pos = "outer2"
+       THEN [NHead(<<2, q[4]>>, <<2>>, FALSE, FALSE, NoE, "row", st) EXCEPT !.OH = <<TH(2), h>>]
+     ELSE [NHead(<<1>>, <<2, q[4]>>, FALSE, FALSE, NoE, "row", st) EXCEPT !.IH = <<TH(2), h>>]
+\* empty ranges (an @outer loop that runs zero times), bound at run time
+HEmpty == {[NHead(<<0>>, <<2>>, FALSE, FALSE, NoE, "row", [NoStyle EXCEPT !.rt = TRUE]) EXCEPT !.OH = <<MkHdr(sh, st, 1, 0, 0)>>] :
+             sh \in {<<"lt", TRUE, "preinc">>, <<"le", TRUE, "addeq">>, <<"ge", TRUE, "subeq">>, <<"gt", FALSE, "postinc">>}, st \in {1, 2}}
+HHeadsOf(vs, poss) == {HHead(sh, pos, v) : sh \in HShapes, pos \in poss, v \in vs}
+HHeadsQ(c) == {h \in HHeadsOf({1, 2}, {"outer", "inner"}) \cup HEmpty : HeadOK(h)}
+HHeadsT(c) == {h \in HHeadsOf({1, 2, 3, 4}, {"outer", "inner", "outer2", "inner2"}) \cup HEmpty : HeadOK(h)}
+HMenu(c)  == {St("outadd", Bin("+", In("lin"), Bin("*", OV, IV)), "none", "c0", 1)}
+HPlans(c) == {<< <<1>> >>}
+HWraps(c) == {"none"}
+HNoBar(c) == {FALSE}
+HClasses == {"headers"}
 DesignClasses == {"basic", "excl", "shared", "atomic", "mixed", "tile"}
 NoRelax == {}
 RelaxRaw == {"sh-others-across-barrier"}
